@@ -35,7 +35,7 @@ def _case(draw):
          "place": draw(st.sampled_from(PLACEMENTS)), "side": draw(st.sampled_from(["lo", "hi"])),
          "pos": draw(st.integers(0, 14)), "seed": draw(st.integers(0, 10 ** 6)),
          "regime": draw(st.sampled_from(["fresh", "zero", "small", "moderate", "nonuniform", "flatbin"])),
-         "eval": draw(st.booleans()), "nested": draw(st.booleans())}
+         "eval": draw(st.booleans()), "nested": draw(st.booleans()), "mixed": draw(st.booleans())}
     if kind in ("fn", "fn_tails", "cdf", "cdf_tails", "coupling", "ar"):
         c["fam"] = draw(st.sampled_from(["lin", "quad", "cub", "rq"]))
         c["bins"] = draw(st.integers(1, 6))
@@ -192,6 +192,24 @@ def run_case(case):
             on = vv == edge_exact
             outside = below or above or (on and (hi_open if side_hi else lo_open))
         res.nontrivial = place != "interior" and place != "far"
+        if case.get("mixed") and not case["precise"] and kind in ("fn", "cdf") and not unbounded and place.startswith("out") \
+                and lo is not None and np.isfinite(lo) and np.isfinite(hi) and not (lo_open or hi_open):
+            # double-precision inputs handed to the single-precision transform: the bounds are decided on the caller's numbers, a
+            # value 1-8 double-precision steps outside the box is outside (it must not be rounded into the box first)
+            X64 = X.double()
+            X64[r, f] = _step(float(hi if side_hi else lo), int(place[3:]), torch.float64, outward_up)
+            res.labels.append("mixed_precision_outside")
+            try:
+                with torch.no_grad():
+                    o64 = call(X64)[0]
+                res.fail("out_of_domain_accepted", kind, "double-precision value %r (%s, %s side of [%r, %r]) lies outside the domain but the single-precision "
+                         "transform returned %r" % (float(X64[r, f]), place, case["side"], lo, hi, float(o64.reshape(rows, -1)[r, f])), place=place,
+                         fam=case.get("fam"), mixed=True)
+                return res
+            except InputOutsideDomain:
+                pass
+            except Exception:
+                res.labels.append("mixed_precision_other_error")     # (refused, though not with the documented exception: not judged here)
         try:
             with torch.no_grad():
                 out, ld = call(X)
